@@ -223,6 +223,12 @@ func (m *Machine) split(s, sep *Term) Value {
 		}
 		return m.strSlice(ts)
 	}
+	// a split already made on this path (or licensed by the CAIP-10 pattern axiom) is reused: same parts, no forks
+	for _, sm := range m.splitMemo {
+		if sm.s == s && sm.sep == sep && (sm.guard == nil || m.pcHolds(sm.guard)) {
+			return m.strSlice(append([]*Term{}, sm.parts...))
+		}
+	}
 	maxSep := m.eng.cfg.SliceBound
 	if maxSep < 2 {
 		maxSep = 2 // CAIP-10 account ids and "type.pubkey.signature" proofs have two separators
@@ -230,11 +236,22 @@ func (m *Machine) split(s, sep *Term) Value {
 	var parts []*Term
 	rest := s
 	sl := m.in.StrLen(sep)
+	oneChar := sep.IsConst() && len(sep.sv) == 1
 	for k := 0; k <= maxSep; k++ {
 		has := m.in.StrContains(rest, sep)
 		if !m.branch(has) {
 			parts = append(parts, rest)
-			return m.strSlice(parts)
+			m.splitMemo = append(m.splitMemo, splitMemo{s: s, sep: sep, parts: parts})
+			return m.strSlice(append([]*Term{}, parts...))
+		}
+		if oneChar {
+			// first occurrence by word equation: rest = a ++ sep ++ r with sep not in a (exact for a 1-char separator)
+			a, r := m.freshStr("split"), m.freshStr("split")
+			m.addPC(m.in.Eq(rest, m.in.Concat(a, sep, r)))
+			m.addPC(m.in.Not(m.in.StrContains(a, sep)))
+			parts = append(parts, a)
+			rest = r
+			continue
 		}
 		i := m.in.StrIndexOf(rest, sep, m.in.I64(0))
 		parts = append(parts, m.in.StrSubstr(rest, m.in.I64(0), i))
@@ -242,6 +259,22 @@ func (m *Machine) split(s, sep *Term) Value {
 	}
 	m.abort("bound", "strings.Split with more than %d separators at %s", maxSep, m.repoSite())
 	return nil
+}
+
+type splitMemo struct {
+	s, sep *Term
+	guard  *Term // the split holds when this condition is on the path (nil: unconditionally)
+	parts  []*Term
+}
+
+// pcHolds: the condition is literally one of the path's conjuncts.
+func (m *Machine) pcHolds(c *Term) bool {
+	for _, x := range m.pc {
+		if x == c {
+			return true
+		}
+	}
+	return false
 }
 
 func init() {
